@@ -150,6 +150,11 @@ impl FromStr for TargetAddress {
             let mut parts = s.rsplitn(2, ':');
             let port = parts.next().ok_or(InvalidAddress)?;
             let host = parts.next().ok_or(InvalidAddress)?;
+            // a port is written in digits only: "+80" would otherwise send an address literal down this
+            // branch and turn "10.1.2.3" or "[2001:db8::1]" into a host name
+            if port.is_empty() || !port.bytes().all(|c| c.is_ascii_digit()) {
+                return Err(InvalidAddress);
+            }
             let port = port.parse().map_err(|_| InvalidAddress)?;
             Ok(TargetAddress::DomainPort(host.to_string(), port))
         }
